@@ -329,3 +329,15 @@ pub open spec fn kind_terminal_agrees(r_err: Option<V1Error>, k: Option<V1K>) ->
 }
 pub open spec fn res_err<T>(r: Result<T, V1Error>) -> Option<V1Error> { match r { Ok(_) => None, Err(e) => Some(e) } }
 pub open spec fn verdict_kind(v: V1V) -> Option<V1K> { match v { V1V::Accept(_) => None, V1V::Reject(k) => Some(k) } }
+
+/// what `Display for v1::Addresses` prints (written from the statement of C08: the canonical line)
+pub open spec fn v1_display(a: V1Addresses) -> Seq<u8> {
+    match a {
+        V1Addresses::Unknown => b_proxy() + sp() + b_unknown() + b_crlf(),
+        V1Addresses::Tcp4(x) => tcp4_line(display_ipv4(x.source_address), display_ipv4(x.destination_address),
+                                          display_u16(x.source_port), display_u16(x.destination_port)),
+        V1Addresses::Tcp6(x) => tcp6_line(display_ipv6(x.source_address), display_ipv6(x.destination_address),
+                                          display_u16(x.source_port), display_u16(x.destination_port)),
+    }
+}
+
